@@ -30,7 +30,7 @@ func (c08) Plan(tier string) wk.Plan {
 	n := int64(6000)
 	cfgs := []wk.Config{{Name: "cpu1", CPUs: 1, Shards: 12}, {Name: "cpu4", CPUs: 4, Shards: 2}}
 	if tier == "thorough" {
-		n = 200_000
+		n = 120_000
 		cfgs = []wk.Config{{Name: "cpu1", CPUs: 1, Shards: 12}, {Name: "cpu4", CPUs: 4, Shards: 2}, {Name: "cpu2-gmp8", CPUs: 2, GoMaxProcs: 8, Shards: 1}}
 	}
 	return wk.Plan{
